@@ -129,6 +129,7 @@ let register () =
                   ServerCLI.o_skip_verify_write = false; ServerCLI.o_skip_verify_read = false; ServerCLI.o_uncompressed = false } in
         let d = Stdlib.List.map (fun e -> match Stdlib.String.split_on_char ':' e with
             | [n; "D"] -> (bytes_of_hex n, DDir)
+    | [n; "E"] -> (bytes_of_hex n, DErr)
             | [n; "F"; v] -> (bytes_of_hex n, DFile (bytes_of_hex v))
             | _ -> failwith "dir") (split_on ',' dir) in
         let r = { r_method = meth_of m; r_path = bytes_of_hex p; r_auth = bytes_of_hex ah; r_body = bytes_of_hex body } in
@@ -136,7 +137,7 @@ let register () =
           let act = index_serve dec (ServerCLI.cli_index_cfg o) r in
           let (rs, d') = ServerCLI.cli_index_handle dec enc o d r in
           let out = Stdlib.List.sort compare (Stdlib.List.map (fun (n, e) -> match e with
-              | DDir -> hex_of_bytes n ^ ":D" | DFile v -> hex_of_bytes n ^ ":F:" ^ hex_of_bytes v) d') in
+              | DDir -> hex_of_bytes n ^ ":D" | DErr -> hex_of_bytes n ^ ":E" | DFile v -> hex_of_bytes n ^ ":F:" ^ hex_of_bytes v) d') in
           Printf.sprintf "%s %s %s %s" (action_str act) (string_of_n rs.status) (hex_of_bytes rs.body)
             (if out = [] then "-" else Stdlib.String.concat "," out)
         with Table_miss w -> "ERR table miss " ^ w)
@@ -154,6 +155,7 @@ let register () =
                   c_compressed = false; c_store_writable = bool_of swr } in
         let d = Stdlib.List.map (fun e -> match Stdlib.String.split_on_char ':' e with
             | [n; "D"] -> (bytes_of_hex n, DDir)
+    | [n; "E"] -> (bytes_of_hex n, DErr)
             | [n; "F"; v] -> (bytes_of_hex n, DFile (bytes_of_hex v))
             | _ -> failwith "dir") (split_on ',' dir) in
         let r = { r_method = meth_of m; r_path = bytes_of_hex p; r_auth = bytes_of_hex ah; r_body = bytes_of_hex body } in
@@ -161,7 +163,7 @@ let register () =
           let act = index_serve dec c r in
           let (rs, d') = index_handle dec enc c d r in
           let out = Stdlib.List.sort compare (Stdlib.List.map (fun (n, e) -> match e with
-              | DDir -> hex_of_bytes n ^ ":D" | DFile v -> hex_of_bytes n ^ ":F:" ^ hex_of_bytes v) d') in
+              | DDir -> hex_of_bytes n ^ ":D" | DErr -> hex_of_bytes n ^ ":E" | DFile v -> hex_of_bytes n ^ ":F:" ^ hex_of_bytes v) d') in
           Printf.sprintf "%s %s %s %s" (action_str act) (string_of_n rs.status) (hex_of_bytes rs.body)
             (if out = [] then "-" else Stdlib.String.concat "," out)
         with Table_miss w -> "ERR table miss " ^ w)
